@@ -347,7 +347,8 @@ class Executor:
             return f"for {ast.unparse(node.target)} in {ast.unparse(node.iter)}"
         if isinstance(node, ast.While):
             return f"while {ast.unparse(node.test)}"
-        return ast.unparse(node.value)
+        g = node.value.generators[0]
+        return f"[... for {ast.unparse(g.target)} in {ast.unparse(g.iter)}]"
 
     # ---- exploration --------------------------------------------------------
     def run(self):
@@ -438,6 +439,8 @@ class Executor:
             raise Unsupported("break/continue outside loop")
         v = View(self, st, old=self.entry_view)
         self.cover("return", self.fn)
+        hints = ct.hints(v, result) if getattr(ct, "hints", None) else []
+        self.st.assume(hints)
         self.oblige("post", self.fn, ct.ensures(v, result))
 
     def _check_raise(self, e):
@@ -452,7 +455,7 @@ class Executor:
         else:
             cond = allowed(View(self, self.st, old=self.entry_view))
             self.oblige(f"post.exc.{e.name}", getattr(e, "node", self.fn), cond)
-        self.cover(f"raise.{e.name}", self.fn)
+            self.cover(f"raise.{e.name}", self.fn)
 
     # ---- statements -------------------------------------------------------------
     def exec_block(self, stmts):
@@ -623,29 +626,15 @@ class Executor:
 
     def dict_store(self, d: VDict, k: VInt, v):
         inside = self.mem_keys(d.keys, k.t)
-        newkeys = z3.If(inside, d.keys, L.LInt.snoc(d.keys, k.t))
+        # case split instead of an if-then-else term: the instantiator matches syntactically
+        newkeys = d.keys if self.choose(inside) else L.LInt.snoc(d.keys, k.t)
         newval = z3.Store(d.val, k.t, v.t)
         nd = VDict(newkeys, newval, d.et)
         return nd
 
     def mem_keys(self, keys, k):
         """k in keys, as a defined predicate with skolem witness"""
-        mem = z3.Function("mem_Int", L.LInt.sort, L.Int, L.Bool)
-        wit = z3.Function("memw_Int", L.LInt.sort, L.Int, L.Int)
-        i = z3.Int("_mem_i")
-        t = mem(keys, k)
-        self.st.assume(
-            z3.Implies(t, z3.And(0 <= wit(keys, k), wit(keys, k) < L.LInt.len(keys), L.LInt.at(keys, wit(keys, k)) == k))
-        )
-        self.st.assume(
-            L.Forall(
-                [i],
-                [L.LInt.at(keys, i)],
-                z3.Implies(z3.And(0 <= i, i < L.LInt.len(keys), L.LInt.at(keys, i) == k), t),
-                "mem.intro",
-            )
-        )
-        return t
+        return L.mem_Int(keys, k)
 
     def rebind(self, expr, old, new):
         """in-place mutation of the container denoted by `expr` modelled as rebinding"""
@@ -712,6 +701,10 @@ class Executor:
                 st.env[name] = same_type_fresh(st.env[name], name, st)
         for ref in heap_mods:
             self.havoc_heap(ref)
+            if spec.stack == "grows":
+                # the body only pushes: below an unknown segment nothing can be popped
+                o = st.obj(ref)
+                st.update(ref, pushed=o["pushed"] + [None])
         case = self.choose()  # True: arbitrary iteration, False: exit
         if case:
             if is_for:
@@ -733,7 +726,7 @@ class Executor:
             except BreakExc:
                 return  # continue after the loop with the current state
             # back edge
-            self.check_stacks(stacks_before, node, k)
+            self.check_stacks(stacks_before, node, k, grows=(spec.stack == "grows"))
             jn = (j + 1) if is_for else None
             self.oblige(f"inv.preserve#{k}", node, spec.inv(View(self, st), jn, pre_view))
             if spec.decreases is not None:
@@ -754,14 +747,19 @@ class Executor:
     def stacks(self):
         return {r: list(o["pushed"]) for r, o in self.st.heap.items() if o["kind"] == "solver"}
 
-    def check_stacks(self, before, node, k):
+    def check_stacks(self, before, node, k, grows=False):
         for r, pushed in before.items():
             now = self.st.heap[r]["pushed"]
+            if grows and len(now) >= len(pushed):
+                now = now[: len(pushed)]
             if len(now) != len(pushed):
                 self.oblige(f"inv.frame.stack#{k}", node, z3.BoolVal(False), "push/pop not balanced in loop body")
             else:
                 for a, b in zip(now, pushed):
-                    if not a.eq(b):
+                    if a is None or b is None:
+                        if a is not b:
+                            self.oblige(f"inv.frame.stack#{k}", node, z3.BoolVal(False), "unknown stack segment changed")
+                    elif not a.eq(b):
                         self.oblige(f"inv.frame.stack#{k}", node, a == b)
 
     def havoc_heap(self, ref):
@@ -1300,6 +1298,10 @@ class Executor:
             return VList(ty.et.list_theory().nil, ty.et)
         if ty is TOpaque:
             return v
+        if isinstance(v, VOptional) and not isinstance(ty, TOptional):
+            # passing an Optional where the callee's contract wants the inner type
+            self.oblige(f"pre@call.notnone:{what}", self.fn, z3.Not(v.isnone))
+            return self.coerce(v.val, ty, what)
         return v
 
 
